@@ -307,6 +307,15 @@ func muxImpl(line string) string {
 				}
 			}(c)
 		}
+		// (one case in three: the transport hands out one to four bytes per read, so that packet bodies arrive
+		// in three and more reads)
+		if seed%3 == 0 {
+			var sched []int
+			for i := 0; i < 4000; i++ {
+				sched = append(sched, 1+rng.Intn(4))
+			}
+			mc.setSched(sched)
+		}
 		// feed in random chunks
 		for len(stream) > 0 {
 			n := 1 + rng.Intn(60)
